@@ -65,8 +65,87 @@ impl Clone for R {
     }
 }
 
+/// C18, type level: this only compiles while `Router<T>` and `Match<'_, '_, T>` are `Send + Sync` for every
+/// `T: Send + Sync`.
+#[cfg(feature = "sendsync")]
+#[allow(dead_code)]
+fn router_is_send_and_sync<T: Send + Sync + 'static>() {
+    fn is_send_sync<X: Send + Sync>() {}
+    is_send_sync::<Router<T>>();
+    is_send_sync::<wayfind::Match<'static, 'static, T>>();
+}
+
+/// does the corresponding Rust `FromStr` accept the value? (C13, built-ins)
+pub fn fromstr_ok(name: &str, v: &str) -> Option<bool> {
+    use std::net::{Ipv4Addr, Ipv6Addr};
+    Some(match name {
+        "u8" => v.parse::<u8>().is_ok(),
+        "u16" => v.parse::<u16>().is_ok(),
+        "u32" => v.parse::<u32>().is_ok(),
+        "u64" => v.parse::<u64>().is_ok(),
+        "u128" => v.parse::<u128>().is_ok(),
+        "usize" => v.parse::<usize>().is_ok(),
+        "i8" => v.parse::<i8>().is_ok(),
+        "i16" => v.parse::<i16>().is_ok(),
+        "i32" => v.parse::<i32>().is_ok(),
+        "i64" => v.parse::<i64>().is_ok(),
+        "i128" => v.parse::<i128>().is_ok(),
+        "isize" => v.parse::<isize>().is_ok(),
+        "f32" => v.parse::<f32>().is_ok(),
+        "f64" => v.parse::<f64>().is_ok(),
+        "bool" => v.parse::<bool>().is_ok(),
+        "ipv4" => v.parse::<Ipv4Addr>().is_ok(),
+        "ipv6" => v.parse::<Ipv6Addr>().is_ok(),
+        _ => return None,
+    })
+}
+
+/// hand-written recogniser of the distribution-spec repository name grammar (independent of the `regex` crate):
+/// path components `[a-z0-9]+((\.|_|__|-+)[a-z0-9]+)*` joined by '/'
+pub fn name_ok(s: &str) -> bool {
+    fn alnum(b: u8) -> bool {
+        b.is_ascii_lowercase() || b.is_ascii_digit()
+    }
+    fn component(c: &[u8]) -> bool {
+        let mut i = 0;
+        let run = |i: &mut usize| {
+            let st = *i;
+            while *i < c.len() && alnum(c[*i]) {
+                *i += 1;
+            }
+            *i > st
+        };
+        if !run(&mut i) {
+            return false;
+        }
+        while i < c.len() {
+            // separator: '.', '_', '__', or one or more '-'
+            if c[i] == b'.' {
+                i += 1;
+            } else if c[i] == b'_' {
+                i += 1;
+                if i < c.len() && c[i] == b'_' {
+                    i += 1;
+                }
+            } else if c[i] == b'-' {
+                while i < c.len() && c[i] == b'-' {
+                    i += 1;
+                }
+            } else {
+                return false;
+            }
+            if !run(&mut i) {
+                return false;
+            }
+        }
+        true
+    }
+    !s.is_empty() && s.split('/').all(|c| component(c.as_bytes()))
+}
+
 #[derive(Default)]
 pub struct Exec {
+    expect: Option<String>,
     routers: HashMap<usize, R>,
     pub oracle: Vec<String>,
     pub stats: HashMap<String, u64>,
@@ -149,6 +228,25 @@ impl Exec {
         let f: Vec<&str> = line.split(' ').collect();
         let bad = || (line.to_owned(), "bad-op".to_owned());
         let num = |s: &str| s.parse::<usize>().ok();
+        if line.starts_with('#') {
+            match f.as_slice() {
+                ["#", "expect", rest @ ..] => self.expect = Some(rest.join(" ")),
+                ["#", "nameck", h] => {
+                    if let Some(Ok(n)) = unhex(h).map(String::from_utf8) {
+                        use wayfind::Constraint;
+                        let a = palette::oci_name::NameConstraint::check(&n);
+                        let b = name_ok(&n);
+                        self.bump("nameck");
+                        if a != b {
+                            self.oracle.push(format!("O {idx} C17 name constraint says {a}, the distribution-spec grammar says {b} for {h}"));
+                        }
+                    }
+                }
+                ["#", "psearch", r, n, paths @ ..] => self.psearch(idx, r, n, paths),
+                _ => {}
+            }
+            return (line.to_owned(), "ok".to_owned());
+        }
         match f.as_slice() {
             ["reset"] => {
                 self.routers.clear();
@@ -315,6 +413,30 @@ impl Exec {
                     Ok(None) => "none".to_owned(),
                     Err(p) => panic_msg(p),
                 };
+                if let Some(e) = self.expect.take() {
+                    *self.stats.entry("expect.checked".to_owned()).or_insert(0) += 1;
+                    if e != out {
+                        self.oracle.push(format!("O {idx} C17 expected [{e}] got [{out}]"));
+                    }
+                }
+                // C13: a router holding exactly "/{x:<builtin>}" accepts exactly what FromStr accepts
+                if let [only] = x.live.as_slice() {
+                    if let Some(name) = only.strip_prefix("/{x:").and_then(|t| t.strip_suffix('}')) {
+                        if let (Some(v), false) = (ps.strip_prefix('/'), ps.len() < 2) {
+                            if !v.contains('/') {
+                                if let Some(want) = fromstr_ok(name, v) {
+                                    *self.stats.entry("fromstr.checked".to_owned()).or_insert(0) += 1;
+                                    if want {
+                                        *self.stats.entry("fromstr.accepting".to_owned()).or_insert(0) += 1;
+                                    }
+                                    if want != out.starts_with("match") {
+                                        self.oracle.push(format!("O {idx} C13 built-in '{name}': FromStr says {want} for {}, router answered [{out}]", hex(v.as_bytes())));
+                                    }
+                                }
+                            }
+                        }
+                    }
+                }
                 (full, out)
             }
             ["display", r] => {
@@ -350,6 +472,54 @@ impl Exec {
                 self.bump("bad-op");
                 bad()
             }
+        }
+    }
+
+    /// C18: `n` threads search one shared router concurrently; every result must equal the sequential one
+    fn psearch(&mut self, idx: usize, r: &str, n: &str, paths: &[&str]) {
+        let (Ok(r), Ok(n)) = (r.parse::<usize>(), n.parse::<usize>()) else { return };
+        let Some(x) = self.routers.get(&r) else { return };
+        let paths: Vec<String> = paths.iter().filter_map(|h| unhex(h).and_then(|b| String::from_utf8(b).ok())).collect();
+        let show = |router: &Router<u32>, p: &str| -> String {
+            match router.search(p) {
+                None => "none".to_owned(),
+                Some(m) => format!("{} {:?} {} {:?}", m.template, m.expanded, m.data, m.parameters),
+            }
+        };
+        let router = &x.router;
+        let before = router.to_string();
+        let sequential: Vec<String> = paths.iter().map(|p| show(router, p)).collect();
+        let mut bad = 0usize;
+        std::thread::scope(|s| {
+            let handles: Vec<_> = (0..n)
+                .map(|t| {
+                    let paths = &paths;
+                    let sequential = &sequential;
+                    s.spawn(move || {
+                        let mut bad = 0usize;
+                        for round in 0..3 {
+                            for k in 0..paths.len() {
+                                let i = (k * (t + 1) + round + t) % paths.len();
+                                if show(router, &paths[i]) != sequential[i] {
+                                    bad += 1;
+                                }
+                            }
+                        }
+                        bad
+                    })
+                })
+                .collect();
+            for h in handles {
+                bad += h.join().unwrap_or(1);
+            }
+        });
+        let after: Vec<String> = paths.iter().map(|p| show(router, p)).collect();
+        *self.stats.entry("psearch.calls".to_owned()).or_insert(0) += (n * 3 * paths.len()) as u64;
+        if bad > 0 {
+            self.oracle.push(format!("O {idx} C18 {bad} concurrent search result(s) differ from the sequential ones"));
+        }
+        if after != sequential || router.to_string() != before {
+            self.oracle.push(format!("O {idx} C18 searching changed later search results or the printed tree"));
         }
     }
 
